@@ -895,14 +895,19 @@ class TorConfig:
                     v, functools.partial(self.mark_unsaved, real_name))
                 pending = self.unsaved.get(real_name, None)
                 if pending is not None and \
-                   pending is self.config.get(real_name) and \
-                   not any(pending is sent for saved in self._saving
+                   pending is self.config.get(real_name):
+                    if any(pending is sent for saved in self._saving
                            for _, sent, _ in saved):
+                        # a save() of that very list is unanswered: this
+                        # is Tor telling us about our own change (or
+                        # about one our SETCONF is about to replace).
+                        # The list stays the one the application holds
+                        # and edits; _save_completed decides what is
+                        # still pending
+                        continue
                     # in-place edits of the list Tor no longer has: left
                     # pending, they would shadow every edit of the new
-                    # list (and be sent instead of it). (While a save()
-                    # of that list is unanswered this is Tor telling us
-                    # about our own change; _save_completed decides.)
+                    # list (and be sent instead of it)
                     del self.unsaved[real_name]
             elif real_name in self.parsers:
                 if v == DEFAULT_VALUE:
